@@ -24,6 +24,7 @@ RULE = ("a history is one sequence of events from the alphabet executed on a fre
 ASSUMPTIONS = [
     "scipy.signal.decimate/detrend/butter/sosfiltfilt are the reference operations (trusted)",
     "Wn and breakpoints are computed from the model's current fs/length, so a stale fs in the implementation changes the filter it designs",
+    "events ('bad', ...): a preprocessing call with an illegal argument (q=2.0, ftype='FIR', btype='lowpas', type='quadratic') that raises and is caught by the user; the model is left unchanged by it, and so must the setup be (data, sampling attributes, what later add_algorithms calls hand over). If a tree accepts the argument instead of raising, the history is counted as not judged",
     "the duration attribute after a decimation is a listed known finding (pinned by three existing tests); every other duration mismatch is a violation",
 ]
 
@@ -41,8 +42,13 @@ QUICK_EVENTS = [
     ("fil", "lowpass", 0.3, 4),
     ("rb",),
     ("add",),
+    # a call with an illegal argument that raises and is caught by the user: the setup must be left exactly as it was
+    ("bad", "dec-q-float"),
+    ("bad", "fil-btype"),
 ]
 MORE_EVENTS = [
+    ("bad", "dec-ftype"),
+    ("bad", "det-type"),
     ("dec", 2, {"ftype": "fir"}),
     ("dec", 4, {}),
     ("dec", 5, {}),
@@ -145,6 +151,8 @@ class Model:
             self.reset()
         elif ev[0] == "add":
             self.probes.append((self.fs, [d.copy() for d in self.ds]))
+        elif ev[0] == "bad":
+            pass                       # a rejected call changes nothing
 
     def wn(self, ev):
         w = ev[2]
@@ -226,6 +234,21 @@ def impl_apply(o, ev, m, nprobe, form=0):
         o.rollback()
     elif ev[0] == "add":
         o.add_algorithms(probe_cls()(name=f"probe{nprobe}", p=1))
+    elif ev[0] == "bad":
+        try:
+            BAD_CALLS[ev[1]](o, m)
+        except Exception:
+            return "raised"            # ... and the user catches it
+        return "accepted"
+
+
+# calls with an illegal argument (scipy rejects each of them on every record of the lattice)
+BAD_CALLS = {
+    "dec-q-float": lambda o, m: o.decimate_data(q=2.0),
+    "dec-ftype": lambda o, m: o.decimate_data(q=2, ftype="FIR"),
+    "fil-btype": lambda o, m: o.filter_data(Wn=0.3 * m.fs / 2, order=4, btype="lowpas"),
+    "det-type": lambda o, m: o.detrend_data(type="quadratic"),
+}
 
 
 def close(a, b):
@@ -343,10 +366,19 @@ def run_history(kind_idx, kind, events, hist, seed, judge_all=False):
         except Exception as e:
             mexc = e
         try:
-            impl_apply(o, ev, m, nprobe, form=step + len(evs))
+            how = impl_apply(o, ev, m, nprobe, form=step + len(evs))
             iexc = None
         except Exception as e:
             iexc = e
+        if ev[0] == "bad" and iexc is None:
+            if how != "raised":        # this tree accepts the argument: what the call then means is not defined by the statement
+                if judge:
+                    t.outcomes["illegal-argument-accepted(not judged)"] += 1
+                    t.not_judged += 1
+                stop = True
+                break
+            if judge:
+                t.outcomes["rejected-call-caught"] += 1
         if mexc is not None and iexc is not None:
             if judge:
                 t.outcomes["both-reject"] += 1
@@ -450,7 +482,7 @@ def explore(ctx):
         for ki, kind in enumerate(kinds[:4]):
             _CFG.update(kind_idx=ki, kind=kind, events=events5, seed=ctx.seed)
             bfs.merged(ctx, _runner, len(events5), 5, label=f"d5/{kind[0]}{len(kind[1])}/")
-    ctx.require("agree", "rollback", "both-reject" if ctx.thorough else "agree")
+    ctx.require("agree", "rollback", "both-reject" if ctx.thorough else "agree", "rejected-call-caught")
 
 
 def replay(case):
